@@ -154,10 +154,10 @@ func Value(r *mon.Rand, depth int) any {
 // HeaderOpts steers GoHeader.
 type HeaderOpts struct {
 	Protected  bool
-	MaxEntries int            // upper bound on random extra entries
+	MaxEntries int             // upper bound on random extra entries
 	Alg        *cose.Algorithm // when set, label 1 is added with this value
-	AlgSpell   int            // Go spelling number of the alg label (0 = int64)
-	NoIV       bool           // do not generate IV / Partial IV
+	AlgSpell   int             // Go spelling number of the alg label (0 = int64)
+	NoIV       bool            // do not generate IV / Partial IV
 	NoCrit     bool
 	FillTo     int  // when > 0, add a filler so the encoded map is at least this long
 	Plain      bool // only int64 labels and decoder-shaped values (for comparisons after decode)
